@@ -176,7 +176,7 @@ FUZZ_SEEDS = (
 
 
 def shards(tier):
-    out = _progdiff.shards(tier, quick_len=4, thorough_len=5, container_len=(5, 6), alias_len=(6, 8))
+    out = _progdiff.shards(tier, quick_len=4, thorough_len=5, container_len=(5, 6), alias_len=(6, 8), kwargs_len=(7, 8))
     n = 400 if tier == "quick" else 6000
     out += [{"kind": "plain", "n": n, "idx": i} for i in range(16)]
     runs = 30000 if tier == "quick" else 1500000
